@@ -260,7 +260,19 @@ def r1(ck, F):
         ck.ok("C14.R1", "JsonVisitor's %d record methods insert (or delegate) on every path" % nj)
 
 
+def visitor_map_field(F):
+    """name and type of the one map-typed field of JsonVisitor (whatever it is called), else (None, type list)"""
+    adt = F.adts.get(J + "JsonVisitor")
+    if not adt:
+        return None, ""
+    maps = [(f["name"], f["ty"]) for f in adt["variants"][0]["fields"] if "BTreeMap<" in f["ty"] or "HashMap<" in f["ty"] or "Map<" in f["ty"]]
+    if len(maps) == 1:
+        return maps[0]
+    return None, ", ".join("%s: %s" % (f["name"], f["ty"][:40]) for f in adt["variants"][0]["fields"])
+
+
 def r2(ck, F):
+    VALUES = visitor_map_field(F)[0] or "values"
     b = F.impl_method("tracing_subscriber::fmt::format::FormatFields", J + "JsonFields", "add_fields")
     if not ck.anchor("C14.R2", "JsonFields::add_fields", b):
         return
@@ -272,11 +284,11 @@ def r2(ck, F):
     if ok:
         pbb = parse[0][0]
         # the parsed map is assigned to v.values before fields.record(&mut v) on the merge path
-        assigns = [(i, j, s) for i, j, s in b.stmts() if s["k"] == "assign" and any(isinstance(x, dict) and x.get("n") == "values" for x in s["lhs"].get("p", []))]
+        assigns = [(i, j, s) for i, j, s in b.stmts() if s["k"] == "assign" and any(isinstance(x, dict) and x.get("n") == VALUES for x in s["lhs"].get("p", []))]
         merge_recs = [r for r in recs if b.dominates(pbb, r[0])]
         # ... or inserted entry by entry: `for (k, v) in parsed { visitor.values.insert(k, v) }` / `.extend(parsed)`
         from rulekit.query import recv_fields
-        fills = [bb for bb, t in b.calls() if t["callee"].get("method") in ("insert", "extend", "append") and "values" in (recv_fields(b, t)[1] or [])]
+        fills = [bb for bb, t in b.calls() if t["callee"].get("method") in ("insert", "extend", "append") and VALUES in (recv_fields(b, t)[1] or [])]
         if not assigns and fills and merge_recs:
             if not all(b.dominates(pbb, f) and merge_recs[0][0] in b.reachable(f) for f in fills):
                 ok, why = False, "the visitor is not seeded with the previously recorded fields before the new ones are recorded"
@@ -327,11 +339,11 @@ def r2(ck, F):
         ck.bad("C14.R2", "re-parse sites of stored span fields", J, "found %d serde_json::from_str sites in the JSON formatter (expected add_fields and SerializableSpan)" % nre)
     adt = F.adts.get(J + "JsonVisitor")
     if ck.anchor("C14.R2", "JsonVisitor", adt):
-        ty = {f["name"]: f["ty"] for f in adt["variants"][0]["fields"]}.get("values", "")
-        if "BTreeMap<" in ty or "HashMap<" in ty or "Map<" in ty:
-            ck.ok("C14.R2", "JsonVisitor collects fields in a map (unique keys)", detail=ty[:80])
+        nm, ty = visitor_map_field(F)
+        if nm:
+            ck.ok("C14.R2", "JsonVisitor collects fields in a map (unique keys)", detail="%s: %s" % (nm, ty[:80]))
         else:
-            ck.bad("C14.R2", "JsonVisitor collects fields in a map (unique keys)", adt["span"], "values has type %s" % ty)
+            ck.bad("C14.R2", "JsonVisitor collects fields in a map (unique keys)", adt["span"], "no single map-typed field (%s)" % ty)
     ss = F.impl_method("serde_core::ser::Serialize", J + "SerializableSpan<", "serialize") or F.impl_method("serde::ser::Serialize", J + "SerializableSpan<", "serialize")
     if ck.anchor("C14.R2", "SerializableSpan::serialize", ss):
         names = [t["callee"].get("method") for bb, t in ss.calls()]
